@@ -53,6 +53,10 @@ pub enum Artefact {
     Compressed { codec: CodecSpec, raw: Vec<u8> },
     /// arbitrary bytes against the datum entry points
     Raw { schema: RS, bytes: Vec<u8> },
+    /// a container (null codec, schema `bytes`) of `blocks` equal blocks of `size` bytes each, every
+    /// one within the limit. Nothing in reading it needs a request above the limit (equal sizes: no
+    /// amortised growth of the reused block buffer), so the bound is tight: limit + 1 KiB.
+    TightBlocks { size: usize, blocks: usize },
     /// an array / map written as several blocks, each count chosen against the limit: every block
     /// alone is within it, their sum is not (`neg`: counts written negative, followed by a byte size)
     Blocks { schema: RS, counts: Vec<i64>, neg: bool },
@@ -69,6 +73,7 @@ impl Artefact {
             Artefact::Compressed { .. } => "compressed_block",
             Artefact::Raw { .. } => "raw_bytes",
             Artefact::Blocks { .. } => "multi_block_collection",
+            Artefact::TightBlocks { .. } => "equal_blocks_within_limit",
             Artefact::Exhaustive { .. } => "exhaustive_short",
         }
     }
@@ -189,6 +194,24 @@ fn build(a: &Artefact) -> Option<Built> {
         Artefact::Exhaustive { schema, .. } => {
             let p = parse_rs(schema)?;
             Some(Built { bytes: vec![], fields: vec![], schema: Some(p.schema), items: 1 })
+        }
+        Artefact::TightBlocks { size, blocks } => {
+            let p = parse_rs(&RS::Bytes)?;
+            let meta = vec![("avro.schema".to_string(), b"\"bytes\"".to_vec())];
+            let marker = [0x5au8; 16];
+            let mut out = refimpl::write_header(&meta, &marker);
+            // one bytes value that fills the block exactly (or one byte short where no length fits)
+            let mut l = size.saturating_sub(1);
+            while l > 0 && refimpl::long_len(l as i64) + l > *size {
+                l -= 1;
+            }
+            let mut raw = vec![];
+            refimpl::put_long(&mut raw, l as i64);
+            raw.resize(raw.len() + l, 0x61);
+            for _ in 0..*blocks {
+                refimpl::write_block(&mut out, 1, &raw, &refimpl::RCodec::Null, &marker);
+            }
+            Some(Built { bytes: out, fields: vec![], schema: Some(p.schema), items: *blocks })
         }
         Artefact::Blocks { schema, counts, neg } => {
             let p = parse_rs(schema)?;
@@ -332,6 +355,9 @@ fn visit_budget(input_len: usize, limit: usize) -> u64 {
     visit_bound(input_len, limit).min(VISIT_CAP)
 }
 
+/// Marker for the tight bound of `TightBlocks` (limit + 1 KiB), passed in place of a workspace.
+const TIGHT: usize = usize::MAX;
+
 /// Fixed working memory of a codec library that reaches the Rust allocator: zstd's input buffer
 /// (`DCtx::in_size()` = 131075 bytes) and bzip2's block tables (4 bytes x 100 kB x level <= 9).
 /// Neither is sized from a length declared in the data beyond these constants.
@@ -404,14 +430,22 @@ fn judge_call(o: &CallObs, input_len: usize, limit: usize, akind: &str, workspac
             format!("{} panicked on a {input_len}-byte {akind} input: {p}", o.entry),
         ));
     }
-    let bound = 4usize.saturating_mul(limit).saturating_add(64 * 1024).saturating_add(8 * input_len).max(workspace);
+    let bound = if workspace == TIGHT {
+        limit.saturating_add(1024)
+    } else {
+        4usize.saturating_mul(limit).saturating_add(64 * 1024).saturating_add(8 * input_len).max(workspace)
+    };
     if o.window.largest > bound {
         return Some(Failure::new(
             "over-allocation",
             format!("C05 over-allocation entry={} artefact={akind}", o.entry),
             format!(
-                "{} requested a single allocation of {} bytes for a {input_len}-byte {akind} input with the limit at {limit} (bound max(4*limit+64KiB+8*input, codec workspace {workspace}) = {bound}); outcome {}: {}",
-                o.entry, o.window.largest, o.outcome, o.err
+                "{} requested a single allocation of {} bytes for a {input_len}-byte {akind} input with the limit at {limit} (bound {} = {bound}); outcome {}: {}",
+                o.entry,
+                o.window.largest,
+                if workspace == TIGHT { "limit + 1 KiB: equal blocks, each within the limit".to_string() } else { format!("max(4*limit+64KiB+8*input, codec workspace {workspace})") },
+                o.outcome,
+                o.err
             ),
         ));
     }
@@ -470,7 +504,7 @@ fn run_calls(case: &Case, b: &Built, bytes: &[u8], limit: usize) -> Vec<CallObs>
                 }),
             ]
         }
-        Artefact::Container { .. } => {
+        Artefact::Container { .. } | Artefact::TightBlocks { .. } => {
             let schema = b.schema.as_ref().unwrap();
             let max_items = b.items + 8;
             let mut v = vec![observe_call("container.iter", bytes, &plan, limit, |src| {
@@ -625,7 +659,7 @@ fn run_case_inner(case: &Case, ctx: &mut Ctx, limit: usize) -> Option<Failure> {
         Artefact::Compressed { codec, .. } => Some(codec),
         _ => None,
     };
-    let workspace = codec_workspace(akind, &bytes, codec);
+    let workspace = if matches!(case.artefact, Artefact::TightBlocks { .. }) && case.damages.is_empty() { TIGHT } else { codec_workspace(akind, &bytes, codec) };
     // an undamaged container holding one block that inflates past the limit: nothing of it may be delivered
     let bomb = match &case.artefact {
         Artefact::Container { blocks, codec, extra_meta, schema_override, .. }
@@ -864,6 +898,18 @@ impl Property for C05 {
                 let raw = if wr.chance(3, 4) { vec![*wr.pick(&[0u8, 7, 255]); n] } else { wr.bytes(n.min(5000)) };
                 Artefact::Compressed { codec, raw }
             }
+            11 if limit != DEFAULT_LIMIT && wr.chance(1, 3) => {
+                return Some(Case {
+                    limit,
+                    artefact: Artefact::TightBlocks { size: limit * *wr.pick(&[9usize, 9, 7, 10]) / 10, blocks: wr.range(2, 4) as usize },
+                    damages: vec![],
+                    chunk: if sr.chance(1, 2) { Chunk::All } else { Chunk::Hashed { salt: sr.next_u64(), max: 4096 } },
+                    eintr_every: *sr.pick(&[0u64, 0, 5]),
+                    err_at: None,
+                    reader_schema: false,
+                    salt: sr.next_u64(),
+                });
+            }
             10 if limit != DEFAULT_LIMIT && wr.chance(1, 2) => {
                 // per-block counts at the edge of the limit, sums beyond it
                 let l = limit.min(1 << 20) as i64;
@@ -1054,6 +1100,13 @@ impl Property for C05 {
                 }
             }
             Artefact::Exhaustive { .. } => {}
+            Artefact::TightBlocks { size, blocks } => {
+                if *blocks > 2 {
+                    let mut c = case.clone();
+                    c.artefact = Artefact::TightBlocks { size: *size, blocks: 2 };
+                    out.push(c);
+                }
+            }
             Artefact::Blocks { schema, counts, neg } => {
                 if counts.len() > 2 {
                     let mut c = case.clone();
@@ -1083,6 +1136,7 @@ impl Property for C05 {
             Artefact::Compressed { codec, raw } => json!({"artefact": "compressed_block", "codec": codec, "raw_len": raw.len()}),
             Artefact::Raw { schema, bytes } => json!({"artefact": "raw_bytes", "schema": to_json(schema), "len": bytes.len()}),
             Artefact::Exhaustive { schema, max_len } => json!({"artefact": "all byte strings", "max_len": max_len, "schema": to_json(schema)}),
+            Artefact::TightBlocks { size, blocks } => json!({"artefact": "equal blocks within the limit (tight bound)", "block_size": size, "blocks": blocks}),
             Artefact::Blocks { schema, counts, neg } => json!({"artefact": "multi-block collection", "schema": to_json(schema), "blocks": counts.len(), "count_per_block": counts.first(), "negative_counts": neg}),
         };
         json!({"limit": case.limit, "input": a, "damages": case.damages, "chunk": case.chunk, "eintr_every": case.eintr_every, "err_at": case.err_at, "reader_schema": case.reader_schema})
